@@ -339,6 +339,20 @@ def _analyse_variants(facts, fn_def, max_split=5, **kw):
     return out
 
 
+def imprecise_in_main(sx, hk):
+    """constructs inside the main loop that the interpreter could not model precisely (e.g. `for` over iterator adaptors
+    over tracked buffers): verdicts that rest on the ABSENCE of a derived fact must then be INCONCLUSIVE, not violations"""
+    out = []
+    if hk.main_loop is None:
+        return out
+    for what, node in sx.imprecise:
+        if tast.contains(hk.main_loop, lambda z: z is node):
+            # only loops that touch f64 data matter
+            if tast.contains(node, lambda z: z.get("ty") in ("f64", "&f64", "&mut f64")):
+                out.append("%s at %s" % (what, node.get("sp")))
+    return out
+
+
 def step_atom(hk, latch_state):
     """The step actually taken: latch x - X must be a single atom (1*H)."""
     xl = latch_state.get(hk.xkey)
